@@ -2,6 +2,10 @@ import Frp.Driver.Proto
 import Frp.Model.Frame
 import Frp.Props.C17
 import Frp.Model.MsgObj
+import Frp.Model.Dispatcher
+import Frp.Props.C17Dispatch
+import Frp.Model.Lane
+import Frp.Props.C17Lane
 /-
   Driver engine "codec": replays the harness trace (real msg.WriteMsg / ReadMsg / ReadMsgInto and
   the first-message handling of a live frps) on the Frame model and evaluates the C17 predicate
@@ -66,6 +70,9 @@ partial def parseTree (cs : List Char) : Option (MsgObj.J × List Char) :=
   | 't' :: r => some (.bool true, r)
   | 'f' :: r => some (.bool false, r)
   | 'i' :: r => (parseIntChars r).map (fun (i, r) => (.num i, r))
+  | 'r' :: r =>
+    let (h, r) := spanHex r
+    (unhexAux h).map (fun s => (.real s, r))
   | 's' :: r =>
     let (h, r) := spanHex r
     (unhexAux h).map (fun s => (.str s, r))
@@ -102,6 +109,7 @@ partial def renderTree : MsgObj.J → String
   | .bool true => "t"
   | .bool false => "f"
   | .num i => "i" ++ intText i
+  | .real t => "r" ++ dropS (hx t) 1
   | .str s => "s" ++ dropS (hx s) 1
   | .arr l => "[" ++ ",".intercalate (l.map renderTree) ++ "]"
   | .obj ms => "{" ++ ",".intercalate (ms.map (fun kv => dropS (hx kv.1) 1 ++ ":" ++ renderTree kv.2)) ++ "}"
@@ -119,12 +127,325 @@ def objCheck (sname : String) (o v w : String) : Option Bool :=
     let m := MsgObj.fromObj2 C17.schemaGo sname vj
     let typed := MsgObj.typed2 C17.schema sname m
     let oOk := renderTree (MsgObj.toObj2 C17.schema sname m) == o
+      -- completeness of the type check of Model/Dispatcher: what the real encoder writes for a real value is
+      -- accepted by `fits2` (IP texts written by net.IP.MarshalText are valid)
+      && (match MsgObj.toObj2 C17.schema sname m with
+          | .obj ms => Dispatcher.fits2 (fun _ => true) C17.schema sname ms
+          | _ => false)
     let wOk := match parseTreeAll w with
       | none => false
       | some wj => MsgObj.fromObj2 C17.schemaGo sname wj == MsgObj.norm2 C17.schema sname m
     some (typed && oOk && wOk)
 
 def words (s : String) : List String := (s.splitOn " ").filter (· ≠ "")
+
+
+/-! ### session level: `disp` (the real msg.Dispatcher over a pipe) and `sess` (a live control connection) -/
+
+open Dispatcher in
+/-- net.IP.UnmarshalText (net.ParseIP → netip.ParseAddr): the first of `.` `:` `%` decides the family;
+    IPv4 = exactly four decimal fields 0…255 without leading zeros; "" = nil IP.  IPv6 texts are not
+    judged here (`ipDecided` = false ⇒ the op is skipped). -/
+def ipFirstSpecial (s : Str) : Option Nat := s.find? (fun b => b == 46 || b == 58 || b == 37)
+
+def quadField (f : Str) : Bool :=
+  decide (1 ≤ f.length) && decide (f.length ≤ 3) && f.all (fun b => decide (48 ≤ b) && decide (b ≤ 57))
+    && (decide (f.length = 1) || f.headD 0 != 48)
+    && decide (f.foldl (fun a b => a * 10 + (b - 48)) 0 ≤ 255)
+
+def ipOkSimple (s : Str) : Bool :=
+  s.isEmpty || (ipFirstSpecial s == some 46 && (let fs := Str.splitOn 46 s; decide (fs.length = 4) && fs.all quadField))
+
+def ipDecided (s : Str) : Bool := ipFirstSpecial s != some 58
+
+def lowerStr (s : Str) : Str := s.map (fun b => if 65 ≤ b ∧ b ≤ 90 then b + 32 else b)
+
+/-- is the tree inside the domain in which the model's verdict is claimed: member names ASCII (Unicode
+    case folding is not modelled), no `-0` (ParseInt and ParseUint disagree on it), IP texts decided -/
+partial def treeInDomain : MsgObj.J → Bool
+  | .real t => t != [45, 48]
+  | .arr l => l.all treeInDomain
+  | .obj ms => ms.all (fun kv => kv.1.all (· < 128) && treeInDomain kv.2 &&
+      (match kv.2 with
+       | .str v => lowerStr kv.1 != [105, 112] || ipDecided v
+       | _ => true))
+  | _ => true
+
+def sortedKeys : List Str → Bool
+  | a :: b :: r => decide (a < b) && sortedKeys (b :: r)
+  | _ => true
+
+/-- member names exact and distinct at every level (strictly increasing, no upper case except the three of
+    net.UDPAddr): there the model's VALUE of the message (`fromObj2`, exact lookup) is claimed as well -/
+partial def plainTree : MsgObj.J → Bool
+  | .arr l => l.all plainTree
+  | .obj ms => sortedKeys (ms.map (·.1)) && ms.all (fun kv =>
+      (kv.1 == MsgObj.kIP || kv.1 == MsgObj.kPort || kv.1 == MsgObj.kZone || kv.1.all (fun b => !(decide (65 ≤ b) && decide (b ≤ 90))))
+      && plainTree kv.2)
+  | _ => true
+
+def splitS (s : String) (c : Char) : List String := (s.splitOn (String.singleton c)).filter (· ≠ "")
+
+/-- `T[<hexbody>=<tree>;…]` -/
+def parseTreeTable (w : String) : Option (List (Str × Option MsgObj.J)) :=
+  if !(startsS w "T[") then none else
+  let inner := String.ofList ((w.toList.drop 2).dropLast)
+  (splitS inner ';').mapM (fun e =>
+    match e.splitOn "=" with
+    | [h, t] =>
+      match unhexAux h.toList with
+      | none => none
+      | some b => if t = "?" then some (b, none) else (parseTreeAll t).map (fun j => (b, some j))
+    | _ => none)
+
+/-- every body the model may ask the oracle about is in the table (the harness' splitter and the model's
+    framing agree on where bodies are) -/
+partial def bodiesCovered (tbl : List (Str × Option MsgObj.J)) (inp : Str) : Bool :=
+  match (decodeFull maxLen (fun _ => true) inp).res with
+  | .ok _ body rest => (tbl.lookup body).isSome && bodiesCovered tbl rest
+  | .err _ => true
+
+structure ImplCall where
+  id : Nat
+  sname : String
+  off : Nat
+  val : String
+
+/-- `<id>:<Struct>@<off>:<V>` -/
+def parseCall (e : String) : Option ImplCall :=
+  let cs := e.toList
+  let (a, r) := cs.span (· ≠ ':')
+  let (b, r) := (r.drop 1).span (· ≠ '@')
+  let (c, r) := (r.drop 1).span (· ≠ ':')
+  match (String.ofList a).toNat?, (String.ofList c).toNat? with
+  | some id, some off => some ⟨id, String.ofList b, off, String.ofList (r.drop 1)⟩
+  | _, _ => none
+
+def parseCalls (w : String) : Option (List ImplCall) :=
+  if !(startsS w "C[") then none else
+  let inner := String.ofList ((w.toList.drop 2).dropLast)
+  (splitS inner ';').mapM parseCall
+
+/-- `H<typeByte>:<id>,…` ↦ RegisterHandler ops -/
+def parseHandlers (w : String) : Option (List Dispatcher.Op) :=
+  if w = "H-" then some [] else
+  (splitS (dropS w 1) ',').mapM (fun e =>
+    match e.splitOn ":" with
+    | [t, i] =>
+      match t.toNat?, i.toNat? with
+      | some t, some i => (C17.structOf t).map (fun s => Dispatcher.Op.register s i)
+      | _, _ => none
+    | _ => none)
+
+def mkOracle (tbl : List (Str × Option MsgObj.J)) : Dispatcher.Oracle :=
+  ⟨fun b => (tbl.lookup b).join, ipOkSimple⟩
+
+/-- bytes consumed at the moment of each handler call (engine-level recomputation, same `readStep`) -/
+partial def callOffsets (o : Dispatcher.Oracle) (hs : List (String × Nat)) (df : Option Nat) (inp : Str) (base : Nat)
+    (acc : List Nat) : List Nat :=
+  match Dispatcher.readStep C17.env o inp with
+  | .msg s _ rest c =>
+    callOffsets o hs df rest (base + c) (if (C17.targetOf hs df s).isSome then acc ++ [base + c] else acc)
+  | _ => acc
+
+def pingFrame (i : Nat) : Str := encode 104 (Str.ofString ("{\"timestamp\":" ++ toString i ++ "}"))
+
+def hexOf (s : Str) : String := dropS (hx s) 1
+
+/-- the value a handler got = the model's decoding of the body tree (only claimed on plain trees) -/
+def valueOk (o : Dispatcher.Oracle) (sname : String) (body : Str) (v : String) : Bool :=
+  match o.parse body with
+  | some j =>
+    if !plainTree j then true else
+    match parseTreeAll v with
+    | some vj => MsgObj.fromObj2 C17.schemaGo sname vj == MsgObj.fromObj2 C17.schema sname j
+    | none => false
+  | none => false
+
+def dispStep (tok : List String) (impl : String) : Verdict :=
+  match tok with
+  | [hspec, dspec, _chunk, endw, nsend, streamx] =>
+    match parseHandlers hspec, unhx streamx, nsend.toNat? with
+    | some regs, some stream, some nsend =>
+      if isPanic impl then .diff "no-panic" (some false) else
+      match words impl with
+      | [tw, cw, stw, afterw, sw] =>
+        match parseTreeTable tw, parseCalls cw with
+        | some tbl, some calls =>
+          if !(bodiesCovered tbl stream) then .skip "a body the harness' splitter did not see" else
+          if !(tbl.all (fun e => match e.2 with | some j => treeInDomain j | none => true)) then
+            .skip "member name / number / IP text outside the modelled domain" else
+          let o := mkOracle tbl
+          let dflt : List Dispatcher.Op := match dspec.toNat? with | some i => [.registerDefault i] | none => []
+          let sends : List Dispatcher.Op := (List.range nsend).map (fun i => .send (pingFrame (i + 1)) true)
+          let d0 := Dispatcher.run C17.env o {} (regs ++ dflt ++ sends)
+          let d1 := Dispatcher.step C17.env o d0 (.recv stream)
+          let offs := callOffsets o d0.handlers d0.dflt stream 0 []
+          let mstate := if d1.done then "done" else "alive"
+          let mafter := if !d1.done && endw = "close" then
+              (if (Dispatcher.step C17.env o d1 .peerClose).done then "eofdone" else "eofopen") else "-"
+          -- the send side: everything accepted is written, in order, while the session lives; when the read
+          -- loop ended first the send loop may have stopped anywhere on a frame boundary
+          let full := d1.accepted.flatten
+          let implS := dropS sw 1
+          let sOk := if d1.done then ((List.range (d1.accepted.length + 1)).any (fun k => hexOf (d1.accepted.take k).flatten == implS)) else hexOf full == implS
+          let mS := if sOk then implS else hexOf full
+          -- per call: handler, struct, offset from the model; the value echoed when it is the model's
+          let mcalls := (d1.log.zip offs).zipIdx.map (fun ((x, off), k) =>
+            let iv := match calls[k]? with | some c => c.val | none => ""
+            let vOk := valueOk o x.sname x.body iv
+            s!"{x.handler}:{x.sname}@{off}:" ++ (if vOk then iv else "VALUE-MISMATCH"))
+          let model := s!"{tw} C[{";".intercalate mcalls}] {mstate}@{Dispatcher.taken C17.env o d1} {mafter} S{mS}"
+          -- the property, on the implementation's own result
+          let implState := (stw.splitOn "@").headD ""
+          let implOff := ((stw.splitOn "@").getD 1 "").toNat?
+          let prop :=
+            match implOff with
+            | none => false      -- stuck: neither Done nor a further Read
+            | some ioff =>
+              (implState == "done" || implState == "alive")
+              && C17.dispHoldsOn C17.env o d0.handlers d0.dflt stream
+                   ⟨calls.map (fun c => (c.id, c.sname)), implState == "done", ioff⟩
+              && calls.map (·.off) == offs
+              && (d1.log.zip calls).all (fun (x, c) => valueOk o x.sname x.body c.val)
+              && afterw == mafter && sOk
+          verdictOf model impl (some prop)
+        | _, _ => .bad "disp result"
+      | _ => .bad "disp result"
+    | _, _, _ => .bad "disp"
+  | _ => .bad "disp"
+
+/-- handlers a frps control connection registers (server/control.go `registerMsgHandlers`); no default handler -/
+def serverHandlers : List (String × Nat) :=
+  [("NewProxy", 1), ("Ping", 2), ("NatHoleVisitor", 3), ("NatHoleClient", 4), ("NatHoleReport", 5), ("CloseProxy", 6)]
+
+def sessStep (tok : List String) (impl : String) : Verdict :=
+  match tok with
+  | [prex, postx] =>
+    match unhx prex, unhx postx with
+    | some pre, some post =>
+      match words impl with
+      | tw :: restw =>
+        match parseTreeTable tw with
+        | some tbl =>
+          if !(bodiesCovered tbl (pre ++ post)) then .skip "a body the harness' splitter did not see" else
+          if !(tbl.all (fun e => match e.2 with | some j => treeInDomain j | none => true)) then
+            .skip "member name / number / IP text outside the modelled domain" else
+          let o := mkOracle tbl
+          let d0 : Dispatcher.Disp := { handlers := serverHandlers }
+          let d1 := Dispatcher.step C17.env o d0 (.recv pre)
+          if d1.done || !d1.buf.isEmpty then .skip "pre part not made of whole accepted frames" else
+          let d2 := Dispatcher.step C17.env o d1 (.recv post)
+          if d2.log.any (fun x => x.handler != 2) then .skip "handler with session effects (proxy / nat hole)" else
+          let nPost := d2.log.length - d1.log.length
+          if d2.done && nPost > 0 then .skip "replies race with the close" else
+          let pongs (n : Nat) := ",".intercalate (List.replicate n "Pong")
+          let model := s!"{tw} pre={pongs d1.log.length} post={pongs nPost} {if d2.done then "closed" else "open"} alive"
+          let prop := (" ".intercalate restw) == (" ".intercalate ((words model).drop 1))
+          verdictOf model impl (some prop)
+        | none => .bad "sess result"
+      | _ => .bad "sess result"
+    | _, _ => .bad "sess"
+  | _ => .bad "sess"
+
+/-! ### `nh`: the nat-hole message codec; `lane`: the message transporter -/
+
+def errName : Frame.Err → String
+  | .eof => "eof" | .unexpectedEOF => "ueof" | .msgType => "type" | .maxLen => "max" | .negLen => "neg"
+
+def nhStep (tok : List String) (impl : String) : Verdict :=
+  match tok with
+  | [t, _seed, _key, mode, _arg] =>
+    match t.toNat? with
+    | none => .bad "nh"
+    | some t =>
+      if isPanic impl then .diff "no-panic" (some false) else
+      match C17.structOf t, words impl with
+      | some sname, [pw, tw, oc, eq, ww] =>
+        if pw = "P-" then
+          -- fewer bytes than an iv: crypto.Decode refuses
+          let model := "P- T[] err:short - W-"
+          verdictOf model impl (some (impl == model))
+        else
+        match unhx (dropS pw 1), parseTreeTable tw with
+        | some plain, some tbl =>
+          if !(bodiesCovered tbl plain) then .skip "a body the harness' splitter did not see" else
+          if !(tbl.all (fun e => match e.2 with | some j => treeInDomain j | none => true)) then
+            .skip "member name / number / IP text outside the modelled domain" else
+          let o := mkOracle tbl
+          match Dispatcher.intoStep C17.env o sname plain with
+          | .ok body _ _ =>
+            let vOk := match o.parse body with
+              | some .null => true      -- the receiver's struct is left as it was
+              | _ => valueOk o sname body (dropS ww 1)
+            let meq := if mode = "same" then "eq" else eq
+            let model := s!"{pw} {tw} ok {meq} " ++ (if vOk then ww else "WVALUE-MISMATCH")
+            verdictOf model impl (some (oc == "ok" && vOk && (mode != "same" || eq == "eq")))
+          | .err er _ =>
+            let cls := match er with | some e => errName e | none => "json"
+            let model := s!"{pw} {tw} err:{cls} - W-"
+            -- round trip: with the right key and untouched data only a body above the bound may fail
+            verdictOf model impl (some (oc == "err:" ++ cls && (mode != "same" || cls == "max")))
+        | _, _ => .bad "nh result"
+      | none, _ => verdictOf "unregistered" impl
+      | _, _ => .bad "nh result"
+  | _ => .bad "nh"
+
+inductive LaneTok
+  | reg (id : Nat) (t : String) (l : Str)
+  | disp (t : String) (l : Str) (tag : Nat)
+  | cancel (id : Nat)
+
+def parseLaneTok (w : String) : Option LaneTok :=
+  match w.toList with
+  | 'r' :: r =>
+    match (String.ofList r).splitOn ":" with
+    | [i, t, l] => do let i ← i.toNat?; let l ← unhx l; pure (.reg i t l)
+    | _ => none
+  | 'd' :: r =>
+    match (String.ofList r).splitOn ":" with
+    | [t, l, g] => do let g ← g.toNat?; let l ← unhx l; pure (.disp t l g)
+    | _ => none
+  | 'c' :: r => (String.ofList r).toNat?.map .cancel
+  | _ => none
+
+/-- replay on the model; per step the expected word -/
+def laneReplay : Lane.St → List LaneTok → List String → List String
+  | _, [], acc => acc.reverse
+  | s, .reg i t l :: r, acc => laneReplay (Lane.step s (.doReq i t l)).1 r ("r" :: acc)
+  | s, .disp t l g :: r, acc =>
+    let (s', out) := Lane.step s (.dispatch t l g)
+    let w := match out with
+      | .dispatched true (some id) => s!"t>{id}:{g}"
+      | _ => "f"
+    laneReplay s' r (w :: acc)
+  | s, .cancel i :: r, acc =>
+    let w := if s.waiting.any (fun x => x.id == i) then "c:ctxerr" else "c:gone"
+    laneReplay (Lane.step s (.cancel i)).1 r (w :: acc)
+
+/-- the property on the implementation's own words: whoever received a message had made a Do call for
+    exactly the type and lane the message was dispatched with, and nobody received two -/
+def laneProp (toks : List LaneTok) (ws : List String) : Bool :=
+  let regs := toks.filterMap (fun t => match t with | .reg i t l => some (i, t, l) | _ => none)
+  let got := (toks.zip ws).filterMap (fun (t, w) => match t with
+    | .disp t l g =>
+      if startsS w "t>" then
+        match (dropS w 2).splitOn ":" with
+        | [i, g'] => some (i.toNat?.getD 0, t, l, g, g')
+        | _ => some (0, t, l, g, "?")
+      else none
+    | _ => none)
+  got.all (fun (i, t, l, g, g') => regs.any (fun (i', t', l') => i == i' && t == t' && l == l') && g' == toString g)
+    && (got.map (·.1)).eraseDups.length == got.length
+
+def laneStepV (tok : List String) (impl : String) : Verdict :=
+  match tok.mapM parseLaneTok with
+  | none => .bad "lane"
+  | some toks =>
+    if isPanic impl then .diff "no-panic" (some false) else
+    let model := " ".intercalate (laneReplay {} toks [])
+    let ws := words impl
+    verdictOf model impl (some (ws.length == toks.length && laneProp toks ws && impl == model))
 
 def codecStep (st : Unit) (tok : List String) (impl : String) : Unit × Verdict :=
   match tok with
@@ -225,6 +546,10 @@ def codecStep (st : Unit) (tok : List String) (impl : String) : Unit × Verdict 
       match walk 8 inp with
       | some _ => (st, verdictOf "closed alive" impl (some (impl == "closed alive")))
       | none => (st, .skip "stream not decided by framing alone")
+  | "disp" :: rest => (st, dispStep rest impl)
+  | "sess" :: rest => (st, sessStep rest impl)
+  | "nh" :: rest => (st, nhStep rest impl)
+  | "lane" :: rest => (st, laneStepV rest impl)
   | ["first", b] =>
     match unhx b with
     | none => (st, .bad "first")
